@@ -125,6 +125,8 @@ class MixedLogReader(object):
                                                                 save_index=save_index, max_bytes=max_bytes,
                                                                 num_threads=num_threads)
         self.next_index_elem = 0
+        # The offset of the most recent index entry consumed, used to continue in place when the filters change.
+        self.last_offset_bytes = -1
         self.index = self._original_index
         self.filtered_message_types = False
         self._populate_available_source_ids()
@@ -155,6 +157,7 @@ class MixedLogReader(object):
         self.start_time = datetime.now()
 
         self.next_index_elem = 0
+        self.last_offset_bytes = -1
         self.input_file.seek(0, os.SEEK_SET)
 
     def seek_to_message(self, message_index: int, is_filtered_index: bool = False):
@@ -168,6 +171,7 @@ class MixedLogReader(object):
         if not is_filtered_index:
             self.clear_filters()
         self.next_index_elem = message_index
+        self.last_offset_bytes = -1 if message_index == 0 else self.index.offset[message_index - 1]
 
     def seek_to_eof(self):
         self._read_next(force_eof=True)
@@ -222,6 +226,7 @@ class MixedLogReader(object):
                     header.unpack(data, warn_on_unrecognized=False)
                     self.total_bytes_read = offset_bytes + header.get_message_size()
                     self.next_index_elem = len(self.index)
+                    self.last_offset_bytes = offset_bytes
             else:
                 return
 
@@ -407,6 +412,7 @@ class MixedLogReader(object):
             offset_bytes = self.index.offset[self.next_index_elem]
             self.current_message_index = self.index.message_index[self.next_index_elem]
             self.next_index_elem += 1
+            self.last_offset_bytes = offset_bytes
             self.input_file.seek(offset_bytes, os.SEEK_SET)
             self.total_bytes_read = offset_bytes
             return True
@@ -494,12 +500,9 @@ class MixedLogReader(object):
         # If we're reading directly from the file without an index, we'll just pick up where the current seek is, so no
         # need to do anything special.
         if self.index is not None:
-            if self.next_index_elem == 0:
-                prev_offset_bytes = -1
-            else:
-                # Note that next_index_elem refers to the _next_ message to be read. We want the offset of the message
-                # that we just read.
-                prev_offset_bytes = self.index.offset[self.next_index_elem - 1]
+            # Note that next_index_elem refers to the _next_ message to be read. We want the offset of the message that
+            # we just read, which may no longer be present in the current (filtered) index.
+            prev_offset_bytes = self.last_offset_bytes
 
         if isinstance(clear_existing, str):
             # Verify input string and clear accordingly.
